@@ -8,7 +8,17 @@ import (
 )
 
 func getFullPath(filename string, appendExt bool) (string, error) {
-	if usesTemplates {
+	return resolvePath(filename, appendExt, usesTemplates)
+}
+
+// templatePath resolves a template name relative to the template directory,
+// independently of whether a string was evaluated in between
+func templatePath(filename string) (string, error) {
+	return resolvePath(filename, true, true)
+}
+
+func resolvePath(filename string, appendExt, inTemplateDir bool) (string, error) {
+	if inTemplateDir {
 		filename = joinPaths(userConfig.TemplateDir, filename)
 	}
 
